@@ -241,6 +241,7 @@ class Models:
         """list(S) / sorted(S): fresh list enumerating S without repetition (arbitrary order unless sorted)"""
         L = fresh_value(TList(S.elem), 'lst')
         st.assume(Z(L.n) >= 0)
+        st.assume(Z(L.n) == self.set_card(S, st))     # the enumeration of a set has card(S) elements
         k, k2 = bvar('k'), bvar('k')
         x = set_elem_var(S)
         st.assume(forall([k], IMPLIES(in_range(k, 0, L.n), S.member(L.get(k)))))
@@ -308,6 +309,21 @@ class Models:
         if items is not None and isinstance(n, int):
             return SList.of(items * n, L.elem)
         raise Unsupported('list * n')
+
+    def card_lemmas(self, on, A, B, R, st):
+        """L-CARD instances relating the cardinalities of A, B and R = A op B (only when some cardinality is already in play)"""
+        if not st.ghost.get('cards') and not st.ghost.get('want_cards'):
+            return
+        cA, cB, cR = self.set_card(A, st), self.set_card(B, st), self.set_card(R, st)
+        if on == 'Sub':
+            st.assume(AND(cR <= cA, cR >= cA - cB, IMPLIES(set_subset(B, A), cR == cA - cB)))
+        elif on == 'BitOr':
+            x = set_elem_var(A)
+            disj = forall(qvars(x), NOT(AND(A.member(x), B.member(x))))
+            st.assume(AND(cR <= cA + cB, cR >= cA, cR >= cB, IMPLIES(disj, cR == cA + cB)))
+        elif on == 'BitAnd':
+            st.assume(AND(cR <= cA, cR <= cB))
+        self.ex.use('L-CARD:cardinality of union / difference / intersection')
 
     def materialise(self, lazy, st):
         from .npmodel2 import materialise
